@@ -40,8 +40,8 @@ SAFE_METHODS = {
     frozenset: {"union", "intersection", "difference", "issubset", "issuperset"},
     tuple: {"index", "count"},
     dict: {"get", "keys", "values", "items", "setdefault", "update", "pop", "popitem", "copy", "clear"},
-    bytearray: {"append", "extend"},
-    bytes: {"hex", "startswith", "endswith", "decode", "join", "find", "index", "split", "partition"},
+    bytearray: {"append", "extend", "find", "rfind", "index", "count", "startswith", "endswith", "decode", "hex", "clear", "split", "partition", "strip", "rstrip", "lstrip"},
+    bytes: {"hex", "startswith", "endswith", "decode", "join", "find", "rfind", "index", "count", "split", "partition", "rpartition", "strip", "rstrip", "lstrip", "replace"},
 }
 _SAFE_STATIC = {("int", "from_bytes"): (int, int.from_bytes), ("bytes", "fromhex"): (bytes, bytes.fromhex), ("str", "join"): (str, str.join)}
 _BIN = {
